@@ -23,6 +23,8 @@ type c05Ex struct {
 	status  int
 	headers [][2]string
 	body    []byte
+	// rawStatus, when set, is the ':status' value as written (any string), instead of the decimal form of status
+	rawStatus *string
 }
 
 type c05Base struct {
@@ -33,7 +35,11 @@ type c05Base struct {
 }
 
 func c05Response(e c05Ex) []byte {
-	kvs := []refcbor.KV{{K: refcbor.EncBytes([]byte(":status")), V: refcbor.EncBytes([]byte(strconv.Itoa(e.status)))}}
+	st := strconv.Itoa(e.status)
+	if e.rawStatus != nil {
+		st = *e.rawStatus
+	}
+	kvs := []refcbor.KV{{K: refcbor.EncBytes([]byte(":status")), V: refcbor.EncBytes([]byte(st))}}
 	for _, h := range e.headers {
 		kvs = append(kvs, refcbor.KV{K: refcbor.EncBytes([]byte(h[0])), V: refcbor.EncBytes([]byte(h[1]))})
 	}
@@ -432,8 +438,17 @@ func init() {
 		}
 		base := c05BaseList[[]int{1, 2, 3, 5, 6, 7, 8, 0, 4}[c.Free(nb, "base")]]
 		file := base.file
-		kind := c.Dev(11, "mutation-kind")
+		kind := c.Dev(12, "mutation-kind")
 		switch kind {
+		case 11: // the ':status' value of one response replaced by another string, the whole bundle re-encoded consistently
+			// (lengths, offsets and the section table all fit): only a three-digit value is a status
+			sts := []string{"200 ", " 200", "200x", "2000", "404;", "301\n", "20", "2", "", "+20", "-20", "2 0", "0x1", "\u0662\u0660\u0660", "1e2", "200\x00", "999", "099", "000"}
+			st := sts[c.Free(len(sts), "status string")]
+			ver := []string{"b2", "b1"}[c.Free(2, "version")]
+			ex := []c05Ex{{url: "https://ex.test/s", status: 200, headers: [][2]string{{"content-type", "text/plain"}}, body: []byte("status"), rawStatus: &st},
+				{url: "https://ex.test/t", status: 200, headers: [][2]string{{"content-type", "text/plain"}}, body: []byte("other")}}
+			nb := c05Build("status-string", ver, ex, "https://ex.test/t", "", false, false)
+			return &c05Case{input: nb.file, base: base, op: fmt.Sprintf("%s: ':status' = %q, bundle re-encoded consistently", ver, st)}
 		case 10: // a length / offset / count head re-encoded with the SAME value in a wider form, or with the value moved
 			// into the high half of an 8-byte argument: a reader that folds argument bytes wrongly sees another number
 			fi := c.Free(len(base.ref.Fields), "field")
@@ -699,7 +714,7 @@ func init() {
 	register(&mc.Property{
 		ID:          "C05",
 		Level:       "model_checking",
-		Rule:        "choice-tree enumeration of inputs to bundle.Read in watchdog-supervised workers: 7 (quick) / 9 (thorough) base bundles built by the reference encoder (b1/b2, 1-3 exchanges, primary/manifest/signatures sections, a b1 variants entry, two with the sections in an order the repository's writer never produces: manifest ahead of index in a b2 bundle, signatures/manifest ahead of index in b1; one whose responses section is a single response item at offset 0) x one structure-aware mutation: every length/offset/count head replaced by a well-delimited item of another type (null, false, negative integers, empty strings / array / map, a tag, a reserved head, a float), or re-encoded with the same value in a wider head / with the value moved into the high half of an 8-byte argument; every length/offset/count head of the reference's field map replaced by each of 9 boundary values (0, exact+-1, file size, 2^32, 2^63-1, 2^63, 2^64-1, exact+2^63; thorough: pairs of fields), truncation at every offset, every byte set to 8 values (quick: 00, ff, two bit flips, +1, '+', '-', space) / all 256 (thorough), offset/length pairs whose sum wraps around 2^64, an unknown section inserted consistently at every position (must be stepped over), the section table permuted / an entry duplicated / dropped, an unknown section listed without content. Oracle: refbx.Extract (location-strict, encoding-lenient). Non-trivial = the reference produced a verdict the reader had to match (content equality, must-refuse location, must-accept unknown section); distinct by input hash.",
+		Rule:        "choice-tree enumeration of inputs to bundle.Read in watchdog-supervised workers: 7 (quick) / 9 (thorough) base bundles built by the reference encoder (b1/b2, 1-3 exchanges, primary/manifest/signatures sections, a b1 variants entry, two with the sections in an order the repository's writer never produces: manifest ahead of index in a b2 bundle, signatures/manifest ahead of index in b1; one whose responses section is a single response item at offset 0) x one structure-aware mutation: every length/offset/count head replaced by a well-delimited item of another type (null, false, negative integers, empty strings / array / map, a tag, a reserved head, a float), or re-encoded with the same value in a wider head / with the value moved into the high half of an 8-byte argument; every length/offset/count head of the reference's field map replaced by each of 9 boundary values (0, exact+-1, file size, 2^32, 2^63-1, 2^63, 2^64-1, exact+2^63; thorough: pairs of fields), truncation at every offset, every byte set to 8 values (quick: 00, ff, two bit flips, +1, '+', '-', space) / all 256 (thorough), offset/length pairs whose sum wraps around 2^64, an unknown section inserted consistently at every position (must be stepped over), the section table permuted / an entry duplicated / dropped, an unknown section listed without content, the ':status' value of a response replaced by 19 other strings ('200 ', '2000', '+20', the empty string, non-ASCII digits ...) with the bundle re-encoded consistently. Oracle: refbx.Extract (location-strict, encoding-lenient). Non-trivial = the reference produced a verdict the reader had to match (content equality, must-refuse location, must-accept unknown section); distinct by input hash.",
 		Assumptions: []string{"refbx extracts at least what bundle.Read accepts (any well-formed CBOR head, any key order) and is exact about locations", "inputs the reference can extract but the reader refuses for its own stricter rules (URL syntax, header-name case, ASCII) are not judged", "header maps with duplicate names are not judged (the property does not say which value a reader returns)"},
 		Harnesses:   []*mc.Harness{h},
 		Guard: func(s map[string]*mc.Stats) error {
